@@ -236,6 +236,18 @@ func Balances(b *block.Block, txn *transaction.Transaction) (*cstate.StateContex
 	return sc, t
 }
 
+// BalancesOn builds a real StateContext over an existing trie (e.g. a Fork of a block state:
+// one transaction's view, adopted by the caller only if the call succeeds).
+func BalancesOn(t util.MerklePatriciaTrieI, b *block.Block, txn *transaction.Transaction) *cstate.StateContext {
+	return cstate.NewStateContext(b, t, txn,
+		func(int64) *block.MagicBlock { return nil },
+		func() *block.Block { return b },
+		func() *block.MagicBlock { return nil },
+		func() encryption.SignatureScheme { return encryption.NewBLS0ChainScheme() },
+		func() *block.Block { return b },
+		nil)
+}
+
 // Fresh discards the transaction cache content so that the next read comes from the trie.
 func Fresh(t util.MerklePatriciaTrieI) {
 	_ = t
